@@ -225,9 +225,11 @@ RelMism(e) ==
 \* mismatches of every run against the reference: set of <<run index, tag>>
 \* accessor sweep runs (all single-layer decoders, every accessor): no value prediction; the observable of
 \* C01/C02 is "no sub-slice outside the input, same digest at both guard-page placements, no panic"
+IsC02(n) == n \in {"c02.unbounded_iteration"}
 SweepMism(x) == (IF x.res.v = "panic" THEN {"panic"} ELSE {}) \cup (IF x.res.oob # 0 THEN {"oob"} ELSE {}) \cup (IF x.pl # 1 THEN {"placement"} ELSE {})
                 \* two doors to the same decoder (deprecated aliases, helper predicates) that did not give the same answer
-                \cup (IF x.res.v = "panic" THEN {} ELSE {"c06.alias." \o x.res.conv.mism[i] : i \in 1..Len(x.res.conv.mism)})
+                \* (names that start with c02. are totality violations found by the sweep itself: an iterator that does not stop)
+                \cup (IF x.res.v = "panic" THEN {} ELSE {IF IsC02(x.res.conv.mism[i]) THEN x.res.conv.mism[i] ELSE "c06.alias." \o x.res.conv.mism[i] : i \in 1..Len(x.res.conv.mism)})
 
 RefMism(e) ==
   UNION { LET x == e.runs[i] IN
